@@ -196,17 +196,20 @@ def cdf_part(run, np, ode):
     run.add_tlc("MC_OdeModel.cfg", res, "exact diagonal step terms reused for the CDF defining relation")
     rng = np.random.default_rng(run.seed + 3)
     from . import odesys
-    for trial in range(24 if run.tier == "quick" else 300):
-        nrb, nel, nrf = [(0, 3, 0), (1, 2, 0), (0, 2, 1), (2, 3, 1)][trial % 4]
-        order = trial % 2
-        s = odesys.make_system(rng, "cdamp", nrb, nel, nrf, ["none", "vec", "mat"][trial % 3])
+    for trial in range(36 if run.tier == "quick" else 360):
+        nrb, nel, nrf = [(0, 3, 0), (1, 2, 0), (0, 2, 1), (2, 3, 1), (1, 3, 2), (0, 4, 2)][trial % 6]
+        order = (trial // 2) % 2
+        # every third system has its rb / elastic / rf equations interspersed (tsolve accepts any partition; only the generators ask
+        # for contiguous blocks)
+        layout = "interleaved" if trial % 3 == 2 else "contiguous"
+        s = odesys.make_system(rng, "cdamp", nrb, nel, nrf, ["none", "vec", "mat"][(trial // 3) % 3], layout=layout)
         n, h = s["n"], s["h"]
         nt = 8
         F = rng.standard_normal((n, nt))
         d0 = rng.standard_normal(n) * 1e-3
         v0 = rng.standard_normal(n) * 0.1
         cls = "SolveCDF" if trial % 2 else "SolveUnc(cd_as_force)"
-        case = {"solver": cls, "layout": [nrb, nel, nrf], "order": order, "mass": s["mform"]}
+        case = {"solver": cls, "layout": [nrb, nel, nrf], "order": order, "mass": s["mform"], "equations": layout, "rf": s["rf"].tolist()}
         run.case(json.dumps(case) + str(trial), part="cdf recurrence")
         rf = s["rf"] if nrf else None
         try:
